@@ -70,7 +70,7 @@ class Scheduler:
         # (module globals, closure cells) until another client arrives at the same point; the next instructions are then
         # executed in tight alternation (1-3 instructions per slice), so that windows *inside* one source line are crossed
         # by two clients at the same time although their data (and therefore their paths elsewhere) differ
-        self.rv = self.explicit is None and self.policy.get('kind') == 'rendezvous' and granularity == 'instr'
+        self.rv = self.explicit is None and self.policy.get('kind') == 'rendezvous'
         self.rv_cache = {}
         self.rv_wait = {}       # tid -> (code, offset) the client is held at
         self.rv_since = {}
@@ -220,12 +220,14 @@ class Scheduler:
                     raise InjectedMemoryError('injected allocation failure at %s:%s' % w)
                 if f['kind'] == 'clock' and self.clock is not None:
                     self.clock.advance(f.get('delta', 3600))
-        if self.rv and b is not None and not self.tight_left and len(self.alive) > 1:
-            pts = self.rv_cache.get(a)
+        if self.rv and not self.tight_left and len(self.alive) > 1:
+            # the point reached: (code, instruction offset) at instruction granularity, (code, line) at line granularity
+            code, at = (a, b) if b is not None else (a.f_code, a.f_lineno)
+            pts = self.rv_cache.get(code)
             if pts is None:
-                pts = self.rv_cache[a] = _shared_offsets(a)
-            if b in pts and (self._rv_prob >= 1.0 or self.rng.random() < self._rv_prob):
-                key = (a, b)
+                pts = self.rv_cache[code] = _shared_offsets(code, lines=b is None)
+            if at in pts and (self._rv_prob >= 1.0 or self.rng.random() < self._rv_prob):
+                key = (code, at)
                 other = None
                 for t, k2 in self.rv_wait.items():
                     if k2 == key and t != tid and t in self.alive:
@@ -360,9 +362,11 @@ _FILE2MOD = {}
 _MISSING = object()
 
 
-def _shared_offsets(code):
+def _shared_offsets(code, lines=False):
     """Instruction offsets that begin a source line which touches shared mutable state: a module-level name bound to a
-    mutable container / None / not (yet) defined, an attribute of a module that is a mutable container, or a closure cell."""
+    mutable container / None / not (yet) defined, an attribute of a module that is a mutable container, or a closure cell.
+    With lines=True the line numbers themselves are returned (line-granular rendezvous)."""
+    want_lines = lines
     import builtins
     import dis
     import types
@@ -395,6 +399,8 @@ def _shared_offsets(code):
             hit = True
         if hit and cur_line is not None:
             lines.add(cur_line)
+    if want_lines:
+        return frozenset(lines)
     return frozenset(ins.offset for ins in instrs if ins.starts_line is not None and ins.starts_line in lines)
 
 
